@@ -29,15 +29,15 @@ func HostileConstants() [][]byte {
 		hdr(0, 0, 0, 0),
 		hdr(0xFFFF, 0xFFFF, 0xFFFF, 0xFFFF),
 		hdr(1, 0, 0, 0),
-		cat(hdr(1, 0, 0, 0), []byte{0xC0, 0x0C}, qtail),                   // pointer to self
-		cat(hdr(1, 0, 0, 0), []byte{0xC0, 0x0E, 0xC0, 0x0C}, qtail),       // two-cycle
-		cat(hdr(1, 0, 0, 0), []byte{0xC0, 0xFF}, qtail),                   // pointer past the end
-		cat(hdr(1, 0, 0, 0), []byte{0xC0, 0x12}, qtail, []byte{1, 'a', 0}), // forward pointer
-		cat(hdr(1, 0, 0, 0), []byte{0x40, 'a', 0}, qtail),                 // reserved 0x40
-		cat(hdr(1, 0, 0, 0), []byte{0x80, 'a', 0}, qtail),                 // reserved 0x80
-		cat(hdr(1, 0, 0, 0), []byte{63}, bytes.Repeat([]byte{'a'}, 10)),   // label longer than data
-		cat(hdr(1, 0, 0, 0), []byte{1, 'a'}),                              // no terminator
-		cat(hdr(0, 1, 0, 0), []byte{0, 0, 1, 0, 1, 0, 0, 0, 0, 0xFF, 0xFF}), // rdlength lies
+		cat(hdr(1, 0, 0, 0), []byte{0xC0, 0x0C}, qtail),                        // pointer to self
+		cat(hdr(1, 0, 0, 0), []byte{0xC0, 0x0E, 0xC0, 0x0C}, qtail),            // two-cycle
+		cat(hdr(1, 0, 0, 0), []byte{0xC0, 0xFF}, qtail),                        // pointer past the end
+		cat(hdr(1, 0, 0, 0), []byte{0xC0, 0x12}, qtail, []byte{1, 'a', 0}),     // forward pointer
+		cat(hdr(1, 0, 0, 0), []byte{0x40, 'a', 0}, qtail),                      // reserved 0x40
+		cat(hdr(1, 0, 0, 0), []byte{0x80, 'a', 0}, qtail),                      // reserved 0x80
+		cat(hdr(1, 0, 0, 0), []byte{63}, bytes.Repeat([]byte{'a'}, 10)),        // label longer than data
+		cat(hdr(1, 0, 0, 0), []byte{1, 'a'}),                                   // no terminator
+		cat(hdr(0, 1, 0, 0), []byte{0, 0, 1, 0, 1, 0, 0, 0, 0, 0xFF, 0xFF}),    // rdlength lies
 		cat(hdr(0, 1, 0, 0), []byte{0, 0, 1, 0, 1, 0, 0, 0, 0, 0, 3, 1, 2, 3}), // A with 3 octets
 		cat(hdr(0, 1, 0, 0), []byte{0, 0, 2, 0, 1, 0, 0, 0, 0, 0, 1, 0, 0}),    // NS rdlength 1 + trailing
 		cat(hdr(0, 1, 0, 0), []byte{0, 0, 6, 0, 1, 0, 0, 0, 0, 0, 2, 0, 0}),    // SOA too short
